@@ -48,6 +48,11 @@ def gen_cases(rng, tier):
                                        {"cls": "Geometric", "growth": 1.5, "localize_T": True}, {"cls": "Free"}])
             if rng.random() < 0.75:
                 case["args"] = sorted(case["args"] + ["Th"])
+            if case["grid"].get("cls") == "Free" or case["grid"].get("localize_T") or case["grid"].get("localize_t0"):
+                # interval lengths are decision variables of their own: the optimum is flat in them and two converged
+                # solves agree to solver tolerance only (1e-6 is not met); the iteration-limited comparison, which senses
+                # the start point these arguments are about, is the deciding one
+                case["limited"] = True
         if cls == "SS" and rng.random() < 0.5:
             # the only state guess SingleShooting can take: the initial state
             case["args"] = sorted(set(case["args"]) - {"x_guess"} | {"x0_guess"})
